@@ -80,14 +80,26 @@ func C19(c *Ctx) {
 			}
 			age := condEdges(f, func(fc core.Fact, ifi *ssa.If) (bool, int) {
 				bo, ok := ifi.Cond.(*ssa.BinOp)
-				if !ok || (bo.Op != token.GTR && bo.Op != token.GEQ) {
+				if !ok {
 					return false, 0
 				}
-				if core.Mentions(bo.X, fieldNamed("timestamp")) && core.Mentions(bo.Y, func(v ssa.Value) bool {
-					cc, ok := v.(*ssa.Call)
-					return ok && core.CalleeName(cc) == "(time.Duration).Nanoseconds"
-				}) {
+				isAge := func(v ssa.Value) bool { return core.Mentions(v, fieldNamed("timestamp")) }
+				isTol := func(v ssa.Value) bool {
+					return core.Mentions(v, func(w ssa.Value) bool {
+						cc, ok := w.(*ssa.Call)
+						return ok && core.CalleeName(cc) == "(time.Duration).Nanoseconds"
+					})
+				}
+				// the edge on which age > tolerance (or >=) holds, in any of the four spellings
+				switch {
+				case (bo.Op == token.GTR || bo.Op == token.GEQ) && isAge(bo.X) && isTol(bo.Y):
 					return true, 0
+				case (bo.Op == token.LEQ || bo.Op == token.LSS) && isAge(bo.X) && isTol(bo.Y):
+					return true, 1
+				case (bo.Op == token.LSS || bo.Op == token.LEQ) && isTol(bo.X) && isAge(bo.Y):
+					return true, 0
+				case (bo.Op == token.GEQ || bo.Op == token.GTR) && isTol(bo.X) && isAge(bo.Y):
+					return true, 1
 				}
 				return false, 0
 			})
